@@ -29,7 +29,7 @@ ASSUMPTIONS = ["a thread switch inside a single C call (deque.append, dict get/s
                "per-consumer order only: cross-consumer receive order is not observable without perturbing the schedule"]
 REQUIRED_PROBES = ["switch_inside_transport", "two_publishers_same_fresh_channel", "wildcard_subscription", "callback_mode",
                    "subscription_closed_early", "subscription_closed_by_other_task",
-                   "transport_closed_and_reconnected", "callback_raised_in_runner_thread", "deep_backlog_before_first_consumer"]
+                   "transport_closed_and_reconnected", "callback_raised_in_runner_thread", "deep_backlog_before_first_consumer", "async_consumer_cancelled_mid_iteration"]
 CONFIG = {
     "quick": {"runs": 60000, "budget_s": 240, "timeout_s": 20, "per_fork": 25},
     "thorough": {"runs": 3000000, "budget_s": 1500, "timeout_s": 20, "per_fork": 50},
@@ -72,6 +72,9 @@ def generate(rng: random.Random, tier: str, seed: int) -> dict:
     return {"existing": existing, "pubs": pubs, "subs": subs, "strategy": rng.choice(threads.STRATEGIES),
             # publishers far ahead of a late subscriber: a deep backlog on one channel before any consumer exists
             "bulk": {"channel": rng.choice(CHANNELS), "n": rng.choice([600, 1100, 2200, 4500])} if rng.random() < 0.02 else None,
+            # an asyncio consumer (`async for`) that is cancelled after a seeded number of event-loop steps
+            "async_cancel": {"n": rng.randint(2, 6), "cancel_after": rng.randint(0, 14), "pattern": rng.choice(["data.async", "data.*", "*"])}
+            if rng.random() < 0.08 else None,
             "reconnect": rng.random() < 0.15,       # some task calls the documented no-ops close() / connect() on the shared transport
             "sched_seed": rng.getrandbits(48), "choices": None}
 
@@ -164,6 +167,42 @@ def execute(sc: dict, seed: int) -> dict:
                 sched.probe("transport_closed_and_reconnected")
             sched.spawn("reconnector", reconnector)
         outcome = sched.run(wall_timeout=15.0)
+        if outcome == "completed" and sc.get("async_cancel"):
+            # single-threaded asyncio phase on the same transport: cancellation at an arbitrary suspension point is the "crash";
+            # whatever the consumer was not handed must still be queued afterwards
+            import asyncio
+            ac = sc["async_cancel"]
+            for i in range(ac["n"]):
+                item = ["async", "data.async", i]
+                tr.publish("data.async", data=item, context=ContextType())
+                published.append(item)
+            received["async_consumer"] = []
+
+            async def consume():
+                async for msg in tr.subscribe(ac["pattern"]):
+                    received["async_consumer"].append(msg.data)      # handed over: it counts from here on
+                    await asyncio.sleep(0)
+
+            async def main():
+                task = asyncio.ensure_future(consume())
+                for _ in range(ac["cancel_after"]):
+                    await asyncio.sleep(0)
+                    if task.done():
+                        break
+                if not task.done():
+                    task.cancel()
+                    stats["fault.consumer_task_cancelled"] = 1
+                try:
+                    await task
+                except asyncio.CancelledError:
+                    pass
+
+            loop = asyncio.new_event_loop()
+            try:
+                loop.run_until_complete(main())
+            finally:
+                loop.close()
+            stats["probe.async_consumer_cancelled_mid_iteration"] = stats.get("fault.consumer_task_cancelled", 0)
         # final drain (single-threaded, after all tasks finished)
         drained = []
         unmatched_left: list = []
@@ -290,6 +329,8 @@ def _structural_candidates(sc: dict):
         yield dict(sc, existing=[])
     if sc.get("reconnect"):
         yield dict(sc, reconnect=False)
+    if sc.get("async_cancel"):
+        yield dict(sc, async_cancel=None)
     if sc.get("bulk"):
         yield dict(sc, bulk=None)
         if sc["bulk"]["n"] > 600:
